@@ -28,6 +28,7 @@ from ..engine import (
     calls_in,
     dotted_name,
     enclosing_class,
+    enclosing_function,
     kwarg,
     norm,
     parent,
@@ -42,33 +43,62 @@ COMP = "semantiva/core/semantiva_component.py"
 CONTAINER_CALLS = {"dict", "list", "set", "defaultdict", "OrderedDict", "deque", "WeakSet", "WeakValueDictionary", "WeakKeyDictionary", "Counter", "ChainMap"}
 WEAK_CALLS = {"WeakSet", "WeakValueDictionary"}
 
-# process-global accumulators confirmed by reading: (file, class or None, name) -> why bounded
-GLOBAL_TABLE: Dict[Tuple[str, Optional[str], str], str] = {
-    (COMP, None, "_COMPONENT_REGISTRY"): "category -> weak set of classes (D1)",
-    ("semantiva/execution/component_registry.py", "ExecutionComponentRegistry", "_executors"): "keyed by registered name",
-    ("semantiva/execution/component_registry.py", "ExecutionComponentRegistry", "_orchestrators"): "keyed by registered name",
-    ("semantiva/execution/component_registry.py", "ExecutionComponentRegistry", "_transports"): "keyed by registered name",
-    ("semantiva/registry/name_resolver_registry.py", "NameResolverRegistry", "_resolvers"): "keyed by prefix",
-    ("semantiva/registry/parameter_resolver_registry.py", "ParameterResolverRegistry", "_resolvers"): "append guarded by `not in`",
-    ("semantiva/registry/parameter_resolver_registry.py", "ParameterResolverRegistry", "_builtin_names"): "set of resolver names",
-    ("semantiva/registry/plugin_registry.py", None, "_LOADED_EXTENSIONS"): "set of extension names, guarded by membership",
-    ("semantiva/registry/processor_registry.py", "ProcessorRegistry", "_module_history"): "append guarded by _registered_modules membership",
-    ("semantiva/registry/processor_registry.py", "ProcessorRegistry", "_processors"): "keyed by processor name",
-    ("semantiva/registry/processor_registry.py", "ProcessorRegistry", "_registered_modules"): "set of module names",
+# process-global accumulators confirmed by reading, identified by ROLE - what kind of container it is and through
+# which public entry points of the package it is grown - not by its (private) name or the module it is declared in:
+# (kind, {(file, public function that grows it)}, name it had when it was read [tie-breaker only], why bounded,
+#  membership-guard texts for the appending ones)
+ECR = "semantiva/execution/component_registry.py"
+NRR = "semantiva/registry/name_resolver_registry.py"
+PRR = "semantiva/registry/parameter_resolver_registry.py"
+PLUG = "semantiva/registry/plugin_registry.py"
+PROC = "semantiva/registry/processor_registry.py"
+GLOBAL_ROLES: List[Tuple[str, frozenset, str, str]] = [
+    ("map", frozenset({(COMP, "_SemantivaComponentMeta.__init__")}), "_COMPONENT_REGISTRY", "category -> weak set of classes (D1)"),
+    ("map", frozenset({(ECR, "ExecutionComponentRegistry.register_executor")}), "_executors", "keyed by registered name"),
+    ("map", frozenset({(ECR, "ExecutionComponentRegistry.register_orchestrator")}), "_orchestrators", "keyed by registered name"),
+    ("map", frozenset({(ECR, "ExecutionComponentRegistry.register_transport")}), "_transports", "keyed by registered name"),
+    ("map", frozenset({(NRR, "NameResolverRegistry.register_resolver")}), "_resolvers", "keyed by prefix"),
+    ("seq", frozenset({(PRR, "ParameterResolverRegistry.register_resolver")}), "_resolvers", "append guarded by `not in`"),
+    ("set", frozenset({(PRR, "ParameterResolverRegistry.register_resolver")}), "_builtin_names", "set of resolver names"),
+    ("set", frozenset({(PLUG, "load_extensions")}), "_LOADED_EXTENSIONS", "set of extension names, guarded by membership"),
+    ("seq", frozenset({(PROC, "ProcessorRegistry.register_modules")}), "_module_history", "append guarded by the membership test on the set of registered module names"),
+    ("map", frozenset({(PROC, "ProcessorRegistry.register_processor"), (PROC, "ProcessorRegistry.register_modules")}), "_processors", "keyed by processor name"),
+    ("set", frozenset({(PROC, "ProcessorRegistry.register_modules")}), "_registered_modules", "set of module names"),
+]
+# what an appending registry that lost its membership guard means, per public entry point
+APPEND_TEXTS = {
+    (PROC, "ProcessorRegistry.register_modules"): ("module history append guarded by membership", "module history grows on every registration call (workers apply the profile per job)"),
+    (PRR, "ParameterResolverRegistry.register_resolver"): ("resolver append guarded by membership", "resolver list grows on every registration"),
 }
-# instance-level accumulators on long-lived objects: (file, class, attribute) -> why bounded
+# instance-level accumulators on long-lived objects
 LONG_LIVED_DIRS = (
     "semantiva/execution/",
     "semantiva/pipeline/pipeline.py",
     "semantiva/trace/drivers/",
     "semantiva/trace/runtime/",
 )
+# (file, class, attribute) -> why bounded; the attribute is part of the class's public surface
 INSTANCE_TABLE: Dict[Tuple[str, str, str], str] = {
     ("semantiva/execution/job_queue/queue_orchestrator.py", "QueueSemantivaOrchestrator", "self.pending_futures"): "entry deleted when the job's status arrives",
-    ("semantiva/trace/runtime/run_space_emitter.py", "RunSpaceTraceEmitter", "self._seen"): "one entry per launch of this emitter (an emitter lives for one CLI launch)",
+}
+# (file, class, public method) -> why a de-duplication set grown there is bounded.  The attribute is private: it is
+# recognised by its role - a set that only ever receives `add(k)` in that method, on the branch where `k not in <it>`
+INSTANCE_DEDUP_ROLES: Dict[Tuple[str, str, str], str] = {
+    ("semantiva/trace/runtime/run_space_emitter.py", "RunSpaceTraceEmitter", "emit_start"): "one entry per launch of this emitter (an emitter lives for one CLI launch)",
 }
 # stdlib calls that insert into process-wide registries
 REGISTRARS = {"weakref.finalize", "finalize", "atexit.register", "signal.signal", "sys.settrace", "sys.setprofile", "threading.excepthook", "gc.callbacks.append", "copyreg.pickle"}
+# collector switches: after the first one of a pair, cyclic garbage (node <-> processor, class <-> mro) is no longer
+# reclaimed until the second one runs
+GC_PAIRS = {"gc.freeze": "gc.unfreeze", "gc.disable": "gc.enable"}
+GC_WHY = {
+    "gc.freeze": "moves every object alive at that moment - the previous run's Pipeline, its nodes and the node / adapter / shorthand classes generated for it, still "
+                 "referenced by the caller's locals and by reference cycles - into the permanent generation, which no later collection examines: they are never reclaimed",
+    "gc.disable": "switches the cycle collector off: nodes and generated classes live in reference cycles (node <-> processor, class <-> mro) and are reclaimed by the collector only",
+    "gc.set_threshold": "a zero threshold switches the cycle collector off: nodes and generated classes live in reference cycles and are reclaimed by the collector only",
+    "gc.set_debug": "with DEBUG_SAVEALL every unreachable object is appended to gc.garbage instead of being freed",
+}
+WARN_CALLS = {"warnings.warn", "warnings.warn_explicit"}
 UNBOUNDED_CACHE_DECORATORS = {"cache", "functools.cache", "lru_cache", "functools.lru_cache"}
 
 
@@ -100,12 +130,23 @@ def _all_grow_sites(repo: Repo) -> List[Tuple[str, str, ast.AST, str]]:
     return cached
 
 
+def _module_dotted(repo: Repo, rel: str) -> Set[str]:
+    return {d for d, m in repo.by_dotted.items() if m.rel == rel}
+
+
 def _growers_of(repo: Repo, rel: str, cls: Optional[str], name: str) -> List[Tuple[str, str, ast.AST]]:
+    """Growing sites of the module-level name / class-level attribute declared in *rel*: in the declaring module, through
+    a dotted path ending in the name, and in every module that imports the name (`from .state import _SEEN [as _S]`)."""
     out = []
+    declared_as = {f"{d}.{name}" for d in _module_dotted(repo, rel)} if cls is None else set()
     for mrel, qn, n, tgt in _all_grow_sites(repo):
+        head = tgt.split(".")[0]
+        if cls is None and "." not in tgt and mrel != rel:
+            if repo.modules[mrel].imports.get(tgt) in declared_as:  # imported (possibly under another name)
+                out.append((mrel, qn, n))
+            continue
         if tgt.split(".")[-1] != name:
             continue
-        head = tgt.split(".")[0]
         if cls is None:
             if (tgt == name and mrel == rel) or (tgt.endswith("." + name) and head not in ("self", "cls")):
                 out.append((mrel, qn, n))
@@ -117,6 +158,60 @@ def _growers_of(repo: Repo, rel: str, cls: Optional[str], name: str) -> List[Tup
             if (head in ("cls", "self") and in_family) or head == simple:
                 out.append((mrel, qn, n))
     return out
+
+
+def _container_kind(v: Optional[ast.AST]) -> str:
+    if isinstance(v, (ast.Dict, ast.DictComp)):
+        return "map"
+    if isinstance(v, (ast.Set, ast.SetComp)):
+        return "set"
+    if isinstance(v, (ast.List, ast.ListComp)):
+        return "seq"
+    name = call_attr(v) if isinstance(v, ast.Call) else None
+    if name in ("dict", "defaultdict", "OrderedDict", "Counter", "ChainMap", "WeakValueDictionary", "WeakKeyDictionary"):
+        return "map"
+    if name in ("set", "WeakSet"):
+        return "set"
+    return "seq"
+
+
+def _is_private(name: str) -> bool:
+    return name.startswith("_") and not (name.startswith("__") and name.endswith("__"))
+
+
+def _public_entries(repo: Repo, mrel: str, qn: str, depth: int = 0, seen: Optional[Set[int]] = None) -> Set[Tuple[str, str]]:
+    """The public functions through which the function *qn* of *mrel* runs: itself when it is public (or a dunder
+    method), the function it is nested in, else - for a private helper, wherever it lives - its callers, transitively.
+    A private helper nobody calls stands for itself."""
+    seen = set() if seen is None else seen
+    mod = repo.modules[mrel]
+    fn = mod.defs.get(qn)
+    if fn is None or id(fn) in seen:
+        return set()
+    seen.add(id(fn))
+    outer = fn
+    for a in ancestors(fn):
+        if isinstance(a, FuncNode):
+            outer = a
+    if outer is not fn:
+        return _public_entries(repo, mrel, qualname_of(outer), depth, seen)
+    if not _is_private(fn.name) or depth > 3:
+        return {(mrel, qn)}
+    out: Set[Tuple[str, str]] = set()
+    for m2, qn2, f2 in repo.all_functions():
+        if f2 is fn:
+            continue
+        for c in calls_in(f2):
+            if call_attr(c) != fn.name:
+                continue
+            try:
+                targets = repo.resolve_call(m2, c)
+            except Exception:
+                targets = []
+            if any(t is fn for _m, t in targets):
+                out |= _public_entries(repo, m2.rel, qn2, depth + 1, seen)
+                break
+    return out or {(mrel, qn)}
 
 
 def _channel_templates(repo: Repo, mod, f: ast.AST, expr: Optional[ast.AST], depth: int = 0) -> Optional[List[str]]:
@@ -736,6 +831,293 @@ def _global_decl(repo: Repo, mod, dotted: str) -> Optional[ast.AST]:
     return None if isinstance(node, ast.ClassDef) else node
 
 
+def _resolved_call_name(mod, c: ast.Call) -> str:
+    """Dotted name of the callee with import aliases undone (`import gc as _gc`, `from warnings import warn as w`)."""
+    d = call_name(c) or ""
+    head, _, rest = d.partition(".")
+    if head in mod.imports:
+        d = mod.imports[head] + ("." + rest if rest else "")
+    return d
+
+
+def _per_run_reach(repo: Repo) -> Optional[Dict[int, Tuple[object, ast.AST, Tuple[str, ...]]]]:
+    """Functions that run once per run / per job: the call-graph closure (method calls matched by name where the
+    receiver is unknown) of the four ways of repeating a run - Pipeline construction and processing, the orchestrators'
+    execute, the queue master and worker loops, the CLI run loop, building a pipeline from YAML.  None when the entry
+    points cannot be located (callers then treat every function as per-run)."""
+    cached = repo.__dict__.get("_c18_per_run_reach", 0)
+    if cached != 0:
+        return cached
+    roots = []
+    for mod, qn, f in repo.all_functions():
+        if mod.rel.startswith("semantiva/examples/"):
+            continue
+        cls = enclosing_class(f)
+        last = qn.split(".")[-1]
+        if last in ("worker_loop", "load_pipeline_from_yaml") and cls is None:
+            roots.append((mod, f))
+        elif cls is not None and last in ("execute", "enqueue", "run_forever", "submit") and mod.rel.startswith("semantiva/execution/"):
+            roots.append((mod, f))
+        elif cls is not None and mod.rel == PIPE and cls.name == "Pipeline" and "." not in qn.split("Pipeline.", 1)[-1]:
+            roots.append((mod, f))
+        elif mod.rel.startswith("semantiva/cli/") and cls is None and "." not in qn and any(
+            isinstance(lp, (ast.For, ast.While)) and any(isinstance(x, ast.Call) and call_attr(x) == "process" for x in ast.walk(lp)) for lp in ast.walk(f)
+        ):
+            roots.append((mod, f))  # the run loop of a launch
+    names = {qualname_of(f).split(".")[-1] for _m, f in roots}
+    out = None
+    if "worker_loop" in names and "execute" in names:
+        out = repo.call_graph_closure(roots, by_name_fallback=True, ignore_names=("get", "items", "values", "keys", "append", "add", "update", "pop", "format", "join"))
+    repo.__dict__["_c18_per_run_reach"] = out
+    return out
+
+
+def _per_run_path(repo: Repo, f: ast.AST) -> Tuple[bool, str]:
+    """(runs per run / per job, one call path as text)."""
+    reach = _per_run_reach(repo)
+    if reach is None:
+        return True, ""
+    top = f
+    for a in ancestors(f):
+        if isinstance(a, FuncNode):
+            top = a
+    for cand in (f, top):
+        hit = reach.get(id(cand))
+        if hit is not None:
+            return True, " -> ".join(x.split(":", 1)[-1] for x in hit[2][-4:])
+    return False, ""
+
+
+def _collector_switched_off(mod, f: ast.AST, c: ast.Call, d: str) -> Optional[str]:
+    """Why the call *c* (resolved name *d*) leaves the collector unable to reclaim the previous runs' objects; None
+    when it does not (not a collector switch, or switched back on every way out of the function)."""
+    from ..cfg import CFG
+
+    if d == "gc.set_threshold":
+        a0 = c.args[0] if c.args else None
+        return GC_WHY[d] if isinstance(a0, ast.Constant) and a0.value == 0 else None
+    if d == "gc.set_debug":
+        flags = {(dotted_name(x) or "").split(".")[-1] for a in c.args for x in ast.walk(a)}
+        return GC_WHY[d] if flags & {"DEBUG_SAVEALL", "DEBUG_LEAK"} else None
+    if d not in GC_PAIRS:
+        return None
+    undo = GC_PAIRS[d]
+    if isinstance(f, FuncNode):
+        g = CFG(f)
+        starts = g.nodes_for(stmt_of(c))
+
+        def undoes(n) -> bool:
+            x = n.part if n.part is not None else n.ast
+            if x is None or n.id in starts or isinstance(x, FuncNode + (ast.ClassDef,)):
+                return False
+            return any(isinstance(y, ast.Call) and _resolved_call_name(mod, y) == undo for y in [x] + list(walk_no_nested(x)))
+
+        # from where the switch has happened (its own failure switches nothing off)
+        after = [t for st in starts for t, lab in g.successors(st) if lab not in ("EXC", "BASE") and not undoes(g.nodes[t])]
+        if starts and not g.must_pass(after, [g.ret_exit, g.exc_exit], undoes):
+            return None  # a bracket: undone on every way out
+    return GC_WHY[d]
+
+
+def _run_time_parts_of_text(repo: Repo, mod, f: ast.AST, e: Optional[ast.AST], depth: int = 0) -> List[str]:
+    """The sub-expressions that make the text *e* vary from call to call (empty: the text is the same every time this
+    line runs).  Literals, literal building (+, %, f-strings, format / join of literals), locals and module-level
+    names bound to such texts, and warning objects built from them are constant."""
+    from ..engine import assigned_value
+
+    if e is None or isinstance(e, ast.Constant):
+        return []
+    if depth > 6:
+        return [norm(e)[:30]]
+    rec = lambda x: _run_time_parts_of_text(repo, mod, f, x, depth + 1)  # noqa: E731
+    if isinstance(e, ast.JoinedStr):
+        return [p for v in e.values for p in rec(v)]
+    if isinstance(e, ast.FormattedValue):
+        return rec(e.value)
+    if isinstance(e, (ast.Tuple, ast.List)):
+        return [p for v in e.elts for p in rec(v)]
+    if isinstance(e, ast.BinOp) and isinstance(e.op, (ast.Add, ast.Mod, ast.Mult)):
+        return rec(e.left) + rec(e.right)
+    if isinstance(e, ast.IfExp):
+        return rec(e.body) + rec(e.orelse)
+    if isinstance(e, ast.NamedExpr):
+        return rec(e.value)
+    if isinstance(e, ast.Call):
+        fn = e.func
+        args = list(e.args) + [k.value for k in e.keywords]
+        if isinstance(fn, ast.Attribute) and fn.attr in ("format", "join", "strip", "lower", "upper", "rstrip", "lstrip", "capitalize", "format_map"):
+            return rec(fn.value) + [p for a in args for p in rec(a)]
+        name = call_attr(e) or ""
+        if name in ("str", "repr", "dedent", "fill") or name.endswith(("Warning", "Error")):
+            return [p for a in args for p in rec(a)]
+        return [norm(e)[:30]]
+    if isinstance(e, ast.Name):
+        vals = assigned_value(f, e.id) if isinstance(f, FuncNode) else []
+        if vals:
+            return [e.id] if any(rec(v) for v in vals) else []
+        a = f.args if isinstance(f, FuncNode) else None
+        if a is not None and e.id in {p.arg for p in a.posonlyargs + a.args + a.kwonlyargs}:
+            return [e.id]
+        for st in mod.tree.body:
+            if isinstance(st, (ast.Assign, ast.AnnAssign)) and getattr(st, "value", None) is not None:
+                tg = st.targets[0] if isinstance(st, ast.Assign) else st.target
+                if isinstance(tg, ast.Name) and tg.id == e.id:
+                    return _run_time_parts_of_text(repo, mod, None, st.value, depth + 1)
+        if e.id in mod.imports:
+            tgt = mod.imports[e.id]
+            m2 = repo.by_dotted.get(tgt.rpartition(".")[0])
+            if m2 is not None:
+                for st in m2.tree.body:
+                    if isinstance(st, (ast.Assign, ast.AnnAssign)) and getattr(st, "value", None) is not None:
+                        tg = st.targets[0] if isinstance(st, ast.Assign) else st.target
+                        if isinstance(tg, ast.Name) and tg.id == tgt.rpartition(".")[2]:
+                            return _run_time_parts_of_text(repo, m2, None, st.value, depth + 1)
+        return [e.id]
+    return [norm(e)[:30]]
+
+
+def _callers_closure(repo: Repo, mrel: str, qn: str, depth: int = 3) -> Set[Tuple[str, str]]:
+    """The function itself and the functions that (transitively, *depth* steps) call it."""
+    out = {(mrel, qn)}
+    frontier = [(mrel, qn)]
+    for _ in range(depth):
+        nxt = []
+        for rel, q in frontier:
+            fn = repo.modules[rel].defs.get(q)
+            if fn is None:
+                continue
+            for m2, qn2, f2 in repo.all_functions():
+                if (m2.rel, qn2) in out:
+                    continue
+                for c in calls_in(f2):
+                    if call_attr(c) != fn.name:
+                        continue
+                    try:
+                        targets = repo.resolve_call(m2, c)
+                    except Exception:
+                        targets = []
+                    if any(t is fn for _m, t in targets):
+                        out.add((m2.rel, qn2))
+                        nxt.append((m2.rel, qn2))
+                        break
+        frontier = nxt
+    return out
+
+
+def _publish_in_normal_form(repo: Repo, rel: str, qn: str, f: ast.AST, c: ast.Call) -> ast.Call:
+    """The publish call with every local that is bound exactly once in the function replaced by what it is bound to
+    (recursively), so that naming a sub-expression (`processor = node.processor`, `channel = processor.semantic_id()`)
+    does not change how the site is reported.  Used to *describe* the site, not to decide anything."""
+    import copy
+
+    from ..engine import assigned_value
+
+    stores: Dict[str, int] = {}
+    for n in ast.walk(f):
+        if isinstance(n, ast.Name) and isinstance(n.ctx, ast.Store):
+            stores[n.id] = stores.get(n.id, 0) + 1
+
+    class Subst(ast.NodeTransformer):
+        def __init__(self):
+            self.depth = 0
+
+        def visit_Name(self, n: ast.Name):
+            if isinstance(n.ctx, ast.Load) and stores.get(n.id) == 1 and self.depth < 5:
+                vals = assigned_value(f, n.id)
+                if len(vals) == 1 and not isinstance(vals[0], (ast.Lambda, ast.Await, ast.Yield, ast.YieldFrom)):
+                    self.depth += 1
+                    out = self.visit(copy.deepcopy(vals[0]))
+                    self.depth -= 1
+                    return out
+            return n
+
+    try:
+        new = Subst().visit(copy.deepcopy(c))
+        ast.fix_missing_locations(new)
+        ast.unparse(new)
+        return new
+    except Exception:
+        return c
+
+
+def _payload_pins(repo: Repo, c: ast.Call) -> List[str]:
+    """Sub-expressions of the payload of the publish call *c* (everything but the channel) that reference the class
+    of an object derived from the node rather than plain data: a method taken without calling it (a bound method
+    holds its object and class), `type(x)`, `x.__class__`.  Objects that are themselves handed over whole as payload
+    (data, context) are not looked into: they are retained anyway."""
+    idx = repo._build_func_index()
+    payload = [a for a in c.args[1:]] + [k.value for k in c.keywords if k.arg != "channel"]
+    whole = {a.id for a in payload if isinstance(a, ast.Name)}
+    out: List[str] = []
+
+    def root(e: ast.AST) -> Optional[str]:
+        while isinstance(e, (ast.Attribute, ast.Subscript)):
+            e = e.value
+        return e.id if isinstance(e, ast.Name) else None
+
+    def is_method(name: str) -> bool:
+        defs = idx.get(name, [])
+        return bool(defs) and not any((dotted_name(d) or "").split(".")[-1] in ("property", "cached_property") for _m, fn in defs for d in fn.decorator_list)
+
+    up: Dict[int, ast.AST] = {id(ch): n for n in ast.walk(c) for ch in ast.iter_child_nodes(n)}
+    for arg in payload:
+        for n in ast.walk(arg):
+            par = up.get(id(n))
+            called = isinstance(par, ast.Call) and par.func is n
+            if isinstance(n, ast.Call) and isinstance(n.func, ast.Name) and n.func.id == "getattr" and len(n.args) >= 2 and isinstance(n.args[1], ast.Constant):
+                if not called and is_method(str(n.args[1].value)) and root(n.args[0]) not in whole | {None}:
+                    out.append(norm(n)[:60])
+            elif isinstance(n, ast.Attribute) and isinstance(n.ctx, ast.Load) and not called and not isinstance(par, ast.Attribute):
+                if n.attr == "__class__" or is_method(n.attr):
+                    if root(n.value) not in whole | {None}:
+                        out.append(norm(n)[:60])
+            elif isinstance(n, ast.Call) and isinstance(n.func, ast.Name) and n.func.id == "type" and len(n.args) == 1 and not isinstance(par, ast.Attribute):
+                if root(n.args[0]) not in whole | {None}:
+                    out.append(norm(n)[:60])
+    return out
+
+
+def _dedup_set_role(rel: str, cls_qn: str, attr: str, sites: List[Tuple[ast.AST, ast.AST]]) -> Optional[str]:
+    """The frozen reason when *attr* plays the role of a de-duplication set of a frozen (class, public method): every
+    growing site is `<attr>.add(k)` in that method, reached only over a branch edge on which `k not in <attr>` holds.
+    Decided by role, the attribute's (private) name is irrelevant."""
+    from ..cfg import CFG, edges_guaranteeing
+
+    whys = set()
+    for f, n in sites:
+        why = INSTANCE_DEDUP_ROLES.get((rel, cls_qn, f.name))
+        if why is None:
+            return None
+        if not (isinstance(n, ast.Call) and isinstance(n.func, ast.Attribute) and n.func.attr == "add" and len(n.args) == 1 and not n.keywords):
+            return None
+        if enclosing_function(n) is not f:
+            return None
+        v = ast.unparse(n.args[0])
+
+        def atom(e: ast.AST, v=v) -> Optional[bool]:
+            if isinstance(e, ast.Compare) and len(e.ops) == 1 and ast.unparse(e.left) == v and dotted_name(e.comparators[0]) == attr:
+                if isinstance(e.ops[0], ast.NotIn):
+                    return True
+                if isinstance(e.ops[0], ast.In):
+                    return False
+            return None
+
+        g = CFG(f, may_raise=lambda p: set())
+        ids = g.nodes_for(stmt_of(n))
+        if not ids:
+            return None
+        ok = False
+        for node in g.nodes:
+            if node.kind in ("if", "while") and node.part is not None:
+                for lab in edges_guaranteeing(node.part, atom):
+                    if all(g.dominated_by_edge(t, node.id, lab) for t in ids):
+                        ok = True
+        if not ok:
+            return None
+        whys.add(why)
+    return whys.pop() if len(whys) == 1 else None
+
+
 def run(repo: Repo, R: Report) -> None:
     R.assume(
         "garbage collection reclaims unreferenced classes and objects (cycles included)",
@@ -768,7 +1150,7 @@ def run(repo: Repo, R: Report) -> None:
     R.check(ok, r_reg, COMP, "get_component_registry", "returns a snapshot, not the live weak registry", "callers receive the live registry object (can pin or mutate it)", getter.lineno)
 
     # ------------------------------------------------------------------ D2
-    r_glob = R.rule("C18-D2-global-accumulators", "module- and class-level containers that some function grows are exactly the frozen, bounded registries; no stdlib process-wide registrar (weakref.finalize, atexit, unbounded caches) is fed per run", 11)
+    r_glob = R.rule("C18-D2-global-accumulators", "module- and class-level containers that some function grows are exactly the frozen, bounded registries; no stdlib process-wide registrar (weakref.finalize, atexit, unbounded caches, the warning registry through per-run warning texts) is fed per run and the cycle collector is not switched off / frozen on a per-run path", 11)
     found: Dict[Tuple[str, Optional[str], str], ast.AST] = {}
     for mod in repo.modules.values():
         for st in mod.tree.body:
@@ -794,6 +1176,9 @@ def run(repo: Repo, R: Report) -> None:
                     if isinstance(t, ast.Name) and t.id in gl:
                         found.setdefault((mod.rel, None, t.id), n)
     R.extra["global_containers_scanned"] = len(found)
+    # every grown container is matched against the frozen roles: same kind of container, grown through the same public
+    # entry points.  Its name only breaks ties (two containers of one kind grown by one function).
+    grown: List[Tuple[Tuple[str, Optional[str], str], ast.AST, list, str, frozenset]] = []
     for key, decl in sorted(found.items(), key=str):
         rel, cls, name = key
         if rel.startswith("semantiva/examples/"):
@@ -802,26 +1187,62 @@ def run(repo: Repo, R: Report) -> None:
         if not gs:
             continue
         repo.consulted.add(rel)
+        entries = frozenset(e for mrel, qn, _n in gs for e in _public_entries(repo, mrel, qn))
+        grown.append((key, decl, gs, _container_kind(getattr(decl, "value", None)), entries))
+    unclaimed = list(range(len(GLOBAL_ROLES)))
+    claimed: Dict[int, int] = {}  # index in grown -> index in GLOBAL_ROLES
+    for by_name in (True, False):
+        for gi, (key, _decl, _gs, kind, entries) in enumerate(grown):
+            if gi in claimed:
+                continue
+            for ri in unclaimed:
+                rkind, rentries, rname, _why = GLOBAL_ROLES[ri]
+                if rkind == kind and rentries == entries and (not by_name or rname == key[2]):
+                    claimed[gi] = ri
+                    unclaimed.remove(ri)
+                    break
+    # growth moved into a (public) function that the frozen entry point calls: every growing site runs under one of the
+    # role's entry points and every entry point of the role still reaches a growing site
+    for by_name in (True, False):
+        for gi, (key, _decl, gs, kind, _entries) in enumerate(grown):
+            if gi in claimed:
+                continue
+            under = [_callers_closure(repo, mrel, qn) for mrel, qn, _n in gs]
+            for ri in unclaimed:
+                rkind, rentries, rname, _why = GLOBAL_ROLES[ri]
+                if rkind == kind and (not by_name or rname == key[2]) and all(u & rentries for u in under) and all(any(e in u for u in under) for e in rentries):
+                    claimed[gi] = ri
+                    unclaimed.remove(ri)
+                    break
+    for gi, (key, decl, gs, kind, entries) in enumerate(grown):
+        rel, cls, name = key
         where = f"{cls}.{name}" if cls else name
-        if key in GLOBAL_TABLE:
-            R.ok(r_glob, rel, cls or "<module>", f"{where}: {len(gs)} growing site(s)", GLOBAL_TABLE[key], decl.lineno)
+        if gi in claimed:
+            R.ok(r_glob, rel, cls or "<module>", f"{where}: {len(gs)} growing site(s)", GLOBAL_ROLES[claimed[gi]][3], decl.lineno)
         else:
             site = gs[0]
             R.violation(r_glob, rel, cls or "<module>", f"{where} grown by `{norm(stmt_of(site[2]))[:70]}` in {site[1]}",
                         "a new process-global container is grown at run time: entries (and whatever they reference - generated classes, payloads, drivers) survive every run", decl.lineno)
-    for key in GLOBAL_TABLE:
-        if key not in found and repo.has_module(key[0]):
-            R.note(f"frozen accumulator {key} no longer exists")
-    # bounded idioms of the frozen entries that append
-    for rel, qn, lst, what_ok, what_bad in (
-        ("semantiva/registry/processor_registry.py", "ProcessorRegistry.register_modules", "_module_history", "module history append guarded by membership", "module history grows on every registration call (workers apply the profile per job)"),
-        ("semantiva/registry/parameter_resolver_registry.py", "ParameterResolverRegistry.register_resolver", "_resolvers", "resolver append guarded by membership", "resolver list grows on every registration"),
-    ):
-        fn = repo.func(rel, qn)
-        guarded, why_not = _appends_guarded_by_membership(fn, lst)
-        R.check(guarded, r_glob, rel, qn, what_ok, what_bad + (": " + why_not if why_not else ""), fn.lineno)
+    for ri in unclaimed:
+        R.note(f"frozen accumulator {GLOBAL_ROLES[ri][2]} ({GLOBAL_ROLES[ri][0]} grown through {sorted(GLOBAL_ROLES[ri][1])}) no longer exists")
+    # bounded idioms of the frozen entries that append: every function that appends to such a list guards the append
+    n_guard = 0
+    for gi, ri in sorted(claimed.items()):
+        if GLOBAL_ROLES[ri][0] != "seq":
+            continue
+        key, _decl, gs, _kind, entries = grown[gi]
+        for mrel, qn in sorted({(mrel, qn) for mrel, qn, _n in gs}):
+            fn = repo.func(mrel, qn)
+            lifted = sorted(_public_entries(repo, mrel, qn))
+            what_ok, what_bad = APPEND_TEXTS.get(lifted[0], (f"append to {key[2]} guarded by membership", f"{key[2]} grows on every call"))
+            guarded, why_not = _appends_guarded_by_membership(fn, key[2])
+            n_guard += 1
+            R.check(guarded, r_glob, mrel, qn, what_ok, what_bad + (": " + why_not if why_not else ""), fn.lineno)
+    if n_guard < 2 and not R.violations():
+        deferred = deferred or AnalysisError("the appending registries (module history, parameter resolvers) were not recognised")
     # stdlib registrars and unbounded caches
     n_reg = 0
+    n_warn = 0
     for mod, qn, f in repo.all_functions():
         if mod.rel.startswith("semantiva/examples/"):
             continue
@@ -833,6 +1254,32 @@ def run(repo: Repo, R: Report) -> None:
             if d in REGISTRARS or d.endswith(".finalize") and "weakref" in d:
                 n_reg += 1
                 R.violation(r_glob, mod.rel, qn, norm(c)[:80], f"`{d}` inserts into a process-wide registry each time this runs; the registered callback keeps its arguments (driver, file, node) alive", c.lineno)
+            # the collector's own state is process-wide: switched off (or everything parked in the permanent
+            # generation) on a path that runs per run / per job, the previous runs' cyclic garbage stays for ever
+            if d.startswith("gc."):
+                why = _collector_switched_off(mod, f, c, d)
+                per_run, via = _per_run_path(repo, f) if why else (False, "")
+                if why and per_run:
+                    n_reg += 1
+                    R.violation(r_glob, mod.rel, qn, norm(c)[:80],
+                                f"`{d}()` on a path that runs for every run / job{' (' + via + ')' if via else ''}: it {why} - the registered component classes and the "
+                                "population of live objects then grow with the number of runs", c.lineno)
+                elif why:
+                    R.note(f"{mod.rel}:{qn}: `{norm(c)[:40]}` is not reachable from a per-run entry point")
+            # the per-module `__warningregistry__` is a process-wide table keyed by the warning *text*: a text that
+            # varies per run / job adds one key per run
+            if d in WARN_CALLS:
+                n_warn += 1
+                parts = _run_time_parts_of_text(repo, mod, f, c.args[0] if c.args else kwarg(c, "message"))
+                per_run, via = _per_run_path(repo, f) if parts else (False, "")
+                if parts and per_run:
+                    n_reg += 1
+                    R.violation(r_glob, mod.rel, qn, norm(c)[:80],
+                                f"the text of this warning is built from run-time values ({', '.join('`' + x + '`' for x in sorted(set(parts))[:4])}) on a path that runs for every run / job"
+                                f"{' (' + via + ')' if via else ''}: under the default filter every distinct (text, category, line) is recorded as a key of the calling module's "
+                                "`__warningregistry__`, a process-wide dict that nothing clears in a long-running worker - one more gc-tracked entry per run that reaches this line", c.lineno)
+                elif parts:
+                    R.note(f"{mod.rel}:{qn}: warning text varies ({parts[:3]}) but the call is not reachable from a per-run entry point")
         for dec in getattr(f, "decorator_list", []):
             dn = dotted_name(dec.func if isinstance(dec, ast.Call) else dec) or ""
             if dn in UNBOUNDED_CACHE_DECORATORS:
@@ -863,7 +1310,8 @@ def run(repo: Repo, R: Report) -> None:
                 n_reg += 1
                 R.violation(r_glob, mod.rel, qn, f"{prm.arg}={norm(dflt)}: grown by `{norm(stmt_of(grow))[:60]}`",
                             "a mutable default argument is one object for the life of the process: growing it is a process-global memo / accumulator that keeps every key and value it was given (per-run classes, evaluators, payloads) alive", grow.lineno)
-    R.ok(r_glob, "semantiva", "<package>", f"stdlib registrars / unbounded caches / mutable-default memos fed at run time: {n_reg}", "none")
+    R.ok(r_glob, "semantiva", "<package>", f"stdlib registrars / unbounded caches / mutable-default memos / collector switches / per-run warning texts fed at run time: {n_reg}", "none")
+    R.extra["warning_call_sites"] = n_warn
 
     # ------------------------------------------------------------------ D3
     r_obj = R.rule("C18-D3-long-lived-objects", "orchestrators, Pipeline, transports, drivers, executors and emitters do not grow containers per run (beyond the frozen, bounded ones); every transport.publish has a subscriber that can consume it", 4)
@@ -871,6 +1319,7 @@ def run(repo: Repo, R: Report) -> None:
         if not mod.rel.startswith(LONG_LIVED_DIRS) or "." in qn:
             continue
         hits: Dict[str, ast.AST] = {}
+        all_sites: Dict[str, List[Tuple[ast.AST, ast.AST]]] = {}
         for f in [n for n in c.body if isinstance(n, FuncNode)]:
             for n in ast.walk(f):
                 tgt = None
@@ -882,11 +1331,15 @@ def run(repo: Repo, R: Report) -> None:
                             tgt = dotted_name(t.value)
                 if tgt and tgt.startswith("self.") and tgt.count(".") == 1 and tgt != "self.__dict__":
                     hits.setdefault(tgt, n)
+                    all_sites.setdefault(tgt, []).append((f, n))
         for attr, site in hits.items():
             repo.consulted.add(mod.rel)
             key = (mod.rel, qn, attr)
+            dedup_why = _dedup_set_role(mod.rel, qn, attr, all_sites[attr])
             if key in INSTANCE_TABLE:
                 R.ok(r_obj, mod.rel, qn, f"{attr} grown by `{norm(stmt_of(site))[:60]}`", INSTANCE_TABLE[key], site.lineno)
+            elif dedup_why:
+                R.ok(r_obj, mod.rel, qn, f"{attr} grown by `{norm(stmt_of(site))[:60]}`", dedup_why, site.lineno)
             else:
                 R.violation(r_obj, mod.rel, qn, f"{attr} grown by `{norm(stmt_of(site))[:70]}`", "a long-lived object accumulates one entry per run / node / job and never releases it", site.lineno)
     # a frozen accumulator that is bounded because entries are released: the release must exist on the consuming path
@@ -930,7 +1383,17 @@ def run(repo: Repo, R: Report) -> None:
                 tmpls = _channel_templates(repo, mod, f, ch)
                 consumed = bool(tmpls) and all(any(fnmatch(t, p) for p in patterns) for t in tmpls)
                 repo.consulted.add(mod.rel)
-                R.check(consumed, r_obj, mod.rel, qn, norm(c)[:90], "messages are published to a channel nothing in the package subscribes to: the in-memory transport retains one Message (data, context) per node per run on a reused Pipeline", c.lineno)
+                shown = c if consumed else _publish_in_normal_form(repo, mod.rel, qn, f, c)
+                R.check(consumed, r_obj, mod.rel, qn, norm(shown)[:90], "messages are published to a channel nothing in the package subscribes to: the in-memory transport retains one Message (data, context) per node per run on a reused Pipeline", c.lineno)
+                if not consumed:
+                    # what such a retained message may reference: the run's data and context - never the node's processor,
+                    # its class or a bound method of it (node / adapter / shorthand classes are generated per run, and
+                    # the weak component registry can only drop a class nothing else references)
+                    for pin in _payload_pins(repo, shown):
+                        R.violation(r_obj, mod.rel, qn, f"payload of `{norm(shown)[:50]}` holds `{pin}`",
+                                    "nothing consumes this channel, so the transport of a reused Pipeline keeps every message - and this one references a class object / a bound method "
+                                    "(whose `__self__` is the processor or its class) instead of plain data: the node, IO-adapter and shorthand classes generated for this run stay "
+                                    "referenced, the weak component registry cannot drop them, and the count of registered classes grows with every run", c.lineno)
                 # a channel whose *name* is computed per job / per run (a formatted field in the name) makes the
                 # transport's channel map grow by one entry (deque + lock) per name unless entries are released
                 for t in sorted(set(tmpls or [])):
